@@ -364,7 +364,9 @@ func (w *zzC08World) run(steps int, imported, _ bool) {
 		acctKey, err := zzImportedAccountKey(w.root)
 		zzMust(err)
 		zzMust(w.update(func(ns walletdb.ReadWriteBucket) error {
-			acct, err := w.sm().NewAccountWatchingOnly(ns, "somebody", acctKey, 0x11223344, nil)
+			// with an address schema that differs from the scope's
+			acct, err := w.sm().NewAccountWatchingOnly(ns, "somebody", acctKey, 0x11223344,
+				&ScopeAddrSchema{ExternalAddrType: NestedWitnessPubKey, InternalAddrType: NestedWitnessPubKey})
 			if err != nil {
 				return err
 			}
@@ -390,9 +392,9 @@ func (w *zzC08World) run(steps int, imported, _ bool) {
 	verifrt.Reach("c08-end")
 }
 
-func ZzC08L1() { zzC08(1) }
-func ZzC08L2() { zzC08(2) }
-func ZzC08L3() { zzC08(3) }
+func ZzC08L1()         { zzC08(1) }
+func ZzC08L2()         { zzC08(2) }
+func ZzC08L3()         { zzC08(3) }
 func ZzC08ImportedL1() { zzC08On(1, true) }
 func ZzC08ImportedL2() { zzC08On(2, true) }
 
